@@ -34,10 +34,12 @@ var writeAlphabet = []hx.Op{
 }
 
 // Two DB configurations: one table per flush/level, and one table and one block per key (level
-// iterators and two-level indexes cross a file/block boundary on every step).
+// iterators and two-level indexes cross a file/block boundary on every step). No WAL and a 16 KiB
+// memtable only because opening thousands of DBs is otherwise dominated by clearing WAL buffers and
+// memtable arenas; neither is visible to an iterator.
 var stateConfigs = []hx.Config{
-	{Name: "base"},
-	{Name: "tiny", TinyFiles: true, BlockSize: 1},
+	{Name: "base", DisableWAL: true, MemTableSize: 16 << 10},
+	{Name: "tiny", DisableWAL: true, MemTableSize: 16 << 10, TinyFiles: true, BlockSize: 1},
 }
 
 // Bases from which the write histories start.
@@ -252,29 +254,27 @@ func describe(cfg hx.Config, hist []hx.Op, from int) (sigs, classes []string, ri
 	return sigs, classes, rich, nil
 }
 
-// discoverStates enumerates every write history (all configurations x bases x alphabet^depth), keeps
-// the first history (enumeration order) of each distinct signature, groups them by shape class and
-// picks up to limit of them round-robin over the classes (richest classes first), so that the
-// capped selection is deterministic and spread over the shape classes.
+// discoverStates enumerates every write history (bases x alphabet^depth, executed under the first
+// configuration), keeps the first history (enumeration order) of each distinct signature, groups
+// them by shape class and picks up to limit of them round-robin over the classes (richest classes
+// first), so that the capped selection is deterministic and spread over the shape classes.
 func discoverStates(c *vlib.Ctx, limit int) (picked []StateSpec, nHist, nDistinct, nClasses int) {
 	type job struct {
-		cfg  hx.Config
 		b    base
 		hist []hx.Op
 	}
+	cfg := stateConfigs[0]
 	var jobs []job
 	k := len(writeAlphabet)
 	for _, b := range bases {
-		for _, cfg := range stateConfigs {
-			n := vlib.SeqCount(k, b.depth, b.depth)
-			for i := 0; i < n; i++ {
-				seq := vlib.SeqDecode(i, k, b.depth, b.depth)
-				h := append([]hx.Op{}, b.ops...)
-				for _, s := range seq {
-					h = append(h, writeAlphabet[s])
-				}
-				jobs = append(jobs, job{cfg, b, h})
+		n := vlib.SeqCount(k, b.depth, b.depth)
+		for i := 0; i < n; i++ {
+			seq := vlib.SeqDecode(i, k, b.depth, b.depth)
+			h := append([]hx.Op{}, b.ops...)
+			for _, s := range seq {
+				h = append(h, writeAlphabet[s])
 			}
+			jobs = append(jobs, job{b, h})
 		}
 	}
 	type res struct {
@@ -291,7 +291,7 @@ func discoverStates(c *vlib.Ctx, limit int) (picked []StateSpec, nHist, nDistinc
 			from = len(j.b.ops) // the base itself is a candidate too
 		}
 		var r res
-		r.sigs, r.classes, r.rich, r.err = describe(j.cfg, j.hist, from)
+		r.sigs, r.classes, r.rich, r.err = describe(cfg, j.hist, from)
 		results[i] = r
 	})
 	seen := map[string]bool{}
@@ -319,7 +319,7 @@ func discoverStates(c *vlib.Ctx, limit int) (picked []StateSpec, nHist, nDistinc
 				classRich[cl] = r.rich[s]
 			}
 			byClass[cl] = append(byClass[cl], candidate{
-				spec:  StateSpec{Name: fmt.Sprintf("%s/%s/%d", j.cfg.Name, j.b.name, order), Cfg: j.cfg, Hist: h},
+				spec:  StateSpec{Name: fmt.Sprintf("%s/%d", j.b.name, order), Hist: h},
 				order: order, sig: r.sigs[s], class: cl, rich: r.rich[s]})
 		}
 	}
